@@ -117,8 +117,12 @@ def case_strategy(draw: Any, carrier: str) -> Dict[str, Any]:
     # ASGI types header lists as Iterable: applications hand over tuples, one-shot iterators ...
     app["headers_as"] = draw(st.sampled_from(["list", "list", "tuple", "lists", "iter",
                                               "generator", "map"]))
+    # server_names configured and the handshake addressed to another name: 404, no application
+    other_name = draw(st.sampled_from([False] * 7 + [True]))
+    if other_name:
+        prior = 0
     return {"carrier": carrier, "sched": draw(st.integers(0, 999)), "handshake": hs, "app": app,
-            "seg": draw(segmentation()),
+            "seg": draw(segmentation()), "other_name": other_name,
             # ordinary requests served on the connection before the handshake, and the
             # per-connection request maximum (the handshake may be the last request allowed)
             "prior": prior,
@@ -251,6 +255,17 @@ def judge(case: Dict[str, Any], obs: Any) -> None:
                         f"{len(obs.instances) - len(instances)} served")
     valid = is_valid(carrier, hs)
     status = val["status"]
+    if case.get("other_name"):
+        if obs.instances:
+            raise Violation("app_started_for_unknown_host", f"server_names does not list the "
+                            f"host of the handshake; scopes {[i.scope.get('type') for i in obs.instances]}",
+                            backend=be, carrier=carrier)
+        if valid and status != 404:
+            raise Violation("unknown_host_not_404", f"valid handshake for a name not served "
+                            f"answered {status}", backend=be, carrier=carrier)
+        if status == 101 or (carrier == "h2" and status == 200):
+            raise Violation("upgrade_without_handshake", f"{hs} -> {status}", backend=be)
+        return
     if not valid:
         if ws_insts and carrier == "h2" and hs["method"] == "CONNECT" \
                 and hs.get("protocol") != "websocket" and hs["version"] == "13":
@@ -378,6 +393,8 @@ def judge(case: Dict[str, Any], obs: Any) -> None:
 def run_case(case: Dict[str, Any]) -> CaseInfo:
     cfg = {"keep_alive_timeout": T_BIG, "keep_alive_max_requests": case.get("kamax", 1000),
            "h11_pass_raw_headers": bool(case.get("raw_headers"))}
+    if case.get("other_name"):
+        cfg["server_names"] = ["other.example"]
     programs = {"*": app_program(case),
                 "/prior": [["recv_all"], ["respond", 200, [["content-length", "2"]], ["ok"]]]}
 
@@ -391,6 +408,8 @@ def run_case(case: Dict[str, Any]) -> CaseInfo:
     valid = is_valid(case["carrier"], hs)
     a = case["app"]
     classes = ["carrier=" + case["carrier"], "valid=%s" % valid, "decision=" + a["decision"]]
+    if case.get("other_name"):
+        classes.append("host_not_in_server_names")
     if hs.get("adjusted"):
         classes.append("adjusted:" + hs["adjusted"])
     if valid and a["decision"] == "accept":
